@@ -59,7 +59,7 @@ def make_interp(run, base_it, log, device=None, modular=False):
         wvalue = kw.get('wValue', a[2] if len(a) > 2 else 0)
         data = kw.get('data_or_wLength', a[4] if len(a) > 4 else None)
         last_state = run.notes.get('last_state')
-        eff.append(('ctrl', reqtype, request, wvalue, data, len(run.pc), last_state, run.notes.get('loop')))
+        eff.append(('ctrl', reqtype, request, wvalue, data, len(run.pc), last_state, run.notes.get('loop'), run.notes.get('last_status')))
         if request == 3:
             resp = W.SymSized('bytes', 6)
             resp.is_status_response = True
@@ -467,11 +467,14 @@ def obligations_cli(ctx, base_it, env):
             n_req_paths += 1
             first = ctrl[0]
             hyp = list(p.pc[:first[5]])
-            fits = z3.Or(*[z3.And(n <= 1024 * pc_, z3.BoolVal(True)) for pc_ in (128,)])
-            ctx.add(Obligation('dfu.cli_main/path%d/C19a-first-request-only-if-firmware-fits-the-largest-flash' % i, hyp, n <= 1024 * 128, 'INT',
-                               func='dfu.cli_main', kind='effect', cover=False,
-                               meta={'replay': ('dfu', {'props': ['C19'], 'key_prefix': 'oversize'}), 'props': ['C19'],
-                                     'what': 'a request is sent although the firmware is larger than the flash'}))
+            # the flash of the device variant (GD32 serial number code: B 128 KiB, 8 64, 6 32, 4 16 - datasheet, not the program's
+            # own variable): one obligation per variant, under the hypothesis that the device is that variant
+            code = z3.Int('sn_char_2')
+            for ch, kib in (('B', 128), ('8', 64), ('6', 32), ('4', 16)):
+                ctx.add(Obligation('dfu.cli_main/path%d/C19a-first-request-only-if-firmware-fits-the-flash-of-variant-%s' % (i, ch),
+                                   hyp + [code == I.str_id(ch)], n <= 1024 * kib, 'INT', func='dfu.cli_main', kind='effect', cover=False,
+                                   meta={'replay': ('dfu', {'props': ['C19'], 'key_prefix': 'oversize'}), 'props': ['C19'],
+                                         'what': 'a request is sent although the firmware is larger than the %d KiB flash of the variant' % kib}))
         if p.kind == 'raise' and p.exc_name == 'SystemExit':
             msg = p.value.fields.get('args', ('',))
             if msg and isinstance(msg[0], str) and 'too large' in msg[0]:
@@ -513,6 +516,11 @@ def obligations_cli(ctx, base_it, env):
             ctx.add(Obligation('dfu.cli_main/path%d/C18-%s%d-iteration-ends-with-device-not-busy' % (i, loop[0], loop[1]), hyp, goal, 'INT',
                                func='dfu.cli_main', kind='invariant', cover=False, meta={'replay': ('dfu', {'props': ['C18']}), 'props': ['C18']}))
             for j, x in enumerate(dn[1:], 1):
+                lst = x[8] if len(x) > 8 else None
+                ctx.add(Obligation('dfu.cli_main/path%d/C19b-%s%d-request%d-only-after-the-previous-one-ended-with-status-OK' % (i, loop[0], loop[1], j),
+                                   list(p.pc[:x[5]]), (lst.t == 0) if I.is_sym(lst) else z3.BoolVal(False), 'INT', func='dfu.cli_main', kind='effect',
+                                   cover=False, meta={'replay': ('dfu', {'props': ['C19'], 'key_prefix': 'device-error'}), 'props': ['C19'],
+                                                      'what': 'a further request of the same page is sent although the device reported an error status for the previous one'}))
                 ls = x[6]
                 goal = (ls.t != DNBUSY) if I.is_sym(ls) else z3.BoolVal(False)
                 ctx.add(Obligation('dfu.cli_main/path%d/C18-%s%d-request%d-issued-with-device-not-busy' % (i, loop[0], loop[1], j),
